@@ -6,7 +6,7 @@ SPEC_THEOREM = 'Props/C06: editor_m (enc inputs) = enc (editor_t inputs); editor
 TRUSTED = ['Coq 8.16.1 kernel', 'translator', 'extraction + OCaml driver', 'Rust harness',
            'hand-written model: TreeOps.v edits; concat / delete_by_name / delete_by_index / array_insert / build_array / build_object are offset-faithful byte editors (EditWalk.v over Iter.v + Builder.v) with refinement proofs (C06_*_bytes) and tied by correspondence incl. corrupt buffers; the other editors are view-level, tied by correspondence']
 ASSUMPTIONS = ['inputs are canonical encodings of well-formed values']
-RULE = 'all editors x positions -len-2..len+2 and i32 extremes, key sets (subset/superset/disjoint/empty), key paths into and past scalars, nulls at every depth, empty and singleton containers, container-into-container insertion, interleaved-key merges; non-trivial = result differs from the input and is not an error'
+RULE = 'all editors x positions -len-2..len+2 and i32 extremes, key sets (subset/superset/disjoint/empty), key paths into and past scalars, nulls at every depth, empty and singleton containers, container-into-container insertion, interleaved-key merges, wide containers (12..100 members, shared / overlapping / disjoint key sets); non-trivial = result differs from the input and is not an error'
 
 
 def py_concat(a, b):
@@ -31,10 +31,46 @@ def py_strip(v):
     return v
 
 
+def wide_stream(ctx):
+    """containers wider than the random trees get (sorting / hashing / small-vector code has size thresholds, e.g. 20
+    for slice::sort_unstable): objects sharing all, some or none of their keys, and long arrays, through every editor"""
+    r = ctx.rng
+    key = lambda i: ('k%03d' % i).encode()
+    def obj(idx, tag):
+        return ('o', sorted((key(i), ('s', ('%s%d' % (tag, i)).encode()) if i % 3 else ('u', i * 7 + len(tag))) for i in idx))
+    for w in (12, 20, 21, 22, 24, 33, 48, 64, 100):
+        left = obj(range(w), 'L')
+        rights = [obj(range(w), 'R'), obj(range(w // 2, w + w // 2), 'R'), obj(range(1, 2 * w, 2), 'R'), obj(range(w, 2 * w), 'R'),
+                  obj(list(range(w))[::-1][:w // 2], 'R')]
+        le = gen.hexarg(gen.enc(left))
+        for rt in rights:
+            re_ = gen.hexarg(gen.enc(rt))
+            ctx.add('concat %s %s' % (le, re_), meta=('concat', left, rt))
+            ctx.add('concat %s %s' % (re_, le), meta=('concat', rt, left))
+        ks = [key(i) for i in range(0, 2 * w, 3)]
+        ctx.add('object_delete %s %s' % (le, gen.hexlist(ks)))
+        ctx.add('object_pick %s %s' % (le, gen.hexlist(ks)))
+        for k in (key(0), key(w // 2), key(w - 1), key(w), b'a', b'z'):
+            ctx.add('delete_by_name %s %s' % (le, gen.hexarg(k)))
+            for upd in (0, 1):
+                ctx.add('object_insert %s %s %s %d' % (le, gen.hexarg(k), gen.hexarg(gen.enc(('u', 1))), upd))
+        ctx.add('strip_nulls %s' % gen.hexarg(gen.enc(('o', [(key(i), ('n',) if i % 2 else ('a', [('n',), ('o', [(b'x', ('n',))])])) for i in range(w)]))))
+        arr = ('a', [('u', i) if i % 2 else ('s', key(i)) for i in range(w)])
+        ae = gen.hexarg(gen.enc(arr))
+        ctx.add('concat %s %s' % (ae, ae), meta=('concat', arr, arr))
+        ctx.add('concat %s %s' % (ae, le), meta=('concat', arr, left))
+        for i in (0, 1, w // 2, w - 1, w, -1, -w, -w - 1):
+            ctx.add('delete_by_index %s %d' % (ae, i), meta=('dbi', arr, i))
+            ctx.add('array_insert %s %d %s' % (ae, i, le), meta=('ains', arr, i, left))
+        ctx.add('build_array %s' % gen.hexlist([gen.enc(x) for x in arr[1]]))
+        ctx.add('build_object %s %s' % (gen.hexlist([k for k, _ in left[1]][::-1]), gen.hexlist([gen.enc(x) for _, x in left[1]])))
+
+
 def generate(ctx):
     r = ctx.rng
     ds = common.docs(ctx, ctx.scale(300, 10000), finite=False)
     ctx.ds = ds
+    wide_stream(ctx)
     for v in ds:
         e = gen.hexarg(gen.enc(v))
         w = r.choice(ds)
